@@ -229,16 +229,26 @@ func (u *Unit) frameObligation(fr *Frame, fc *FuncContract, fn *ssa.Function, ar
 		comps = append(comps, c)
 	}
 	sort.Strings(comps)
-	var parts []string
-	for _, r := range fr.rets {
-		var cs []string
-		for _, c := range comps {
-			so := u.compSort[c]
-			cs = append(cs, frameFormula(c, u.comp(r.st, c, so), c+"@0", allow[c]))
+	// one obligation per component that the body (or a callee) may have changed
+	n := 0
+	for _, c := range comps {
+		so := u.compSort[c]
+		var parts []string
+		for _, r := range fr.rets {
+			f := frameFormula(c, u.comp(r.st, c, so), c+"@0", allow[c])
+			if f != "true" {
+				parts = append(parts, implies(r.reach, f))
+			}
 		}
-		parts = append(parts, implies(r.reach, and(cs...)))
+		if len(parts) == 0 {
+			continue
+		}
+		n++
+		u.oblige(u.Name+"#modifies:"+c, "modifies", "component "+c+" does not change outside the modifies clause", and(parts...), nil)
 	}
-	u.oblige(u.Name+"#modifies", "modifies", "nothing outside the modifies clause changes", and(parts...), nil)
+	if n == 0 {
+		u.oblige(u.Name+"#modifies", "modifies", "nothing outside the modifies clause changes (no component is written)", "true", nil)
+	}
 }
 
 type allowedSet struct {
